@@ -361,6 +361,19 @@ func KnobInt(name string, def int) int {
 	return def
 }
 
+// KnobDiv divides a pool size of rare by the run's divisor for that constructor (never below 1).
+func KnobDiv(name string, v int) int {
+	if s := active.Load(); s != nil && s.Opts.Knobs != nil {
+		if d, ok := s.Opts.Knobs[name]; ok && d > 1 {
+			if v/d >= 1 {
+				return v / d
+			}
+			return 1
+		}
+	}
+	return v
+}
+
 // Now returns the fake time elapsed since the start of the run.
 func (s *Sim) Now() time.Duration { return time.Since(s.start) }
 
